@@ -2990,6 +2990,17 @@ func loopVarFor(n *node) {
 	}
 }
 
+// loopVarForEnd copies the per-iteration loop variable back at the end of the loop body n,
+// so that the post statement and the condition see the assignments made in the body.
+func loopVarForEnd(n *node) {
+	lv, ixn := n.child[0], n.anc.child[0].child[0]
+	next := getExec(n.tnext)
+	n.exec = func(f *frame) bltn {
+		f.data[ixn.findex].Set(f.data[lv.findex])
+		return next
+	}
+}
+
 func rangeChan(n *node) {
 	i := n.child[0].findex        // element index location in frame
 	value := genValue(n.child[1]) // chan
